@@ -3,7 +3,7 @@
 #   patch applies, workspace builds, baseline suite passes with the patch, demo passes without / fails with the patch.
 set -u
 SD=$1
-WT=/tmp/seedval_wt
+WT=/tmp/seedval_wt_$$
 CMD=$(python3 -c "import json,sys;print(json.load(open('$SD/meta.json'))['demo_cmd'])")
 git -C /repo worktree remove --force $WT 2>/dev/null
 git -C /repo worktree add --detach $WT HEAD -q || exit 3
